@@ -12,6 +12,13 @@ NextPI == \E tag \in Tags :
             \/ \E pk \in PacketKinds, nf \in {0, 1, 2, 5} :
                  /\ c' = <<pk, nf, tag>>
                  /\ Emit("PI", PacketInTree(pk, [i \in 1..nf |-> <<DecMF(tag + 7 * i), FALSE>>], tag))
+            \/ \E len \in {4, 8, 64}, masked \in BOOLEAN, idx \in {0, 3, 7} :      \* variable-length byte-array fields: tunnel metadata, 128-bit registers
+                 /\ (masked => len <= 64)
+                 /\ c' = <<"bytearray", len, masked, idx, tag>>
+                 /\ Emit("PI", [PacketInTree("ip4udp", <<>>, tag) EXCEPT !.Match =
+                        [T |-> "Match", Fields |-> <<TunMetaEl("f1", idx, len, masked, tag).tree,
+                                                      GenField("f2", "NXM_NX_XXREG" \o ToString(idx % 4), {0, 5, 70 + idx}, 8, IF masked THEN "range" ELSE "plain").tree,
+                                                      MF("f3", 1, tag, FALSE).tree>>]])
             \/ \E k \in DecodableMF, masked \in BOOLEAN :
                  /\ (masked => MFTable[k][4] # 0)
                  /\ c' = <<"mf", k, masked, tag>>
